@@ -30,13 +30,15 @@ RULE = ('Inputs: random bytes (with and without a valid e_ident prefix); EVERY t
         'files (header-only / sections / segments / full = dynamic+notes+hash+gnu-hash+versym+verneed+verdef+symtab '
         'with PT_LOAD/PT_DYNAMIC/PT_NOTE / forced extended numbering; each for ELF32/64 x LSB/MSB, written by the '
         'independent writer vf/enc/elf.py, refereed clean by readelf and llvm-readelf) and of the shipped ELF files '
-        '<= 4 KiB (quick tier: every length for files <= 1 KiB, first 128 lengths + header-table boundaries +-1 + '
-        'stride 31 for 1..4 KiB); truncation of larger shipped files at header-table entry boundaries +-1 (quick: files '
-        '<= 64 KiB, 9 boundaries each); every single-byte substitution of the first 64 bytes with {0x00,0xff,+1,^0x80}; '
+        '<= 4 KiB (quick tier: every length of the 20 generated seeds; shipped files at the first 128 lengths + '
+        'header-table boundaries +-1 + stride 31); truncation of larger shipped files at header-table entry boundaries '
+        '+-1 (quick: files <= 64 KiB, 9 boundaries each); every single-byte substitution of the first 64 bytes with '
+        '{0x00,0xff,+1,^0x80} (quick: generated seeds + shipped files <= 1 KiB); '
         'field-aware corruption (offsets of every Ehdr/Shdr/Phdr/Dyn/Nhdr/hash/gnu-hash/verneed/verdef field found by an '
         'independent struct.unpack scanner that is cross-checked against the writer model): every single field x '
         'boundary values {0,1,S-1,S,S+1,0xff00,0xffff,2^31,2^32-1,2^64-1,len-1,len,len+1,orig-1,orig+1} (S = size of '
-        'the structure the field belongs to or describes), every PAIR of constructor-relevant fields (7 Ehdr fields, '
+        'the structure the field belongs to or describes; quick: full set in selected class/byte-order cells, a 6-value '
+        'subset elsewhere), every PAIR of constructor-relevant fields (7 Ehdr fields, '
         'shdr[0] escape fields, name-table header fields) and every pair of fields inside one dynamic/note/hash '
         'record x boundary values, and Hypothesis-drawn 1-4 field corruptions optionally combined with a truncation '
         'or a byte splice; an atheris campaign on the constructor whose saved inputs are replayed through the same '
@@ -46,7 +48,7 @@ RULE = ('Inputs: random bytes (with and without a valid e_ident prefix); EVERY t
         'input passes _identify_file (magic, EI_CLASS, EI_DATA valid) and differs from its seed inside a region the '
         'battery reads (Ehdr, section/program header tables, dynamic/note/hash payloads), or, for seedless inputs, '
         'passes _identify_file and is long enough for the Ehdr to parse. Distinct by SHA-1 of the input bytes.')
-N = {'quick': 4800, 'thorough': 160000}
+N = {'quick': 3200, 'thorough': 160000}
 
 # Work bounds, per battery step:  lines <= LINE_B[step] * max(len, 64 KiB),  bytes <= BYTE_B * max(len, 64 KiB).
 # Calibration (`python -m vf.checks.c19 measure`, unchanged tree, CPython 3.12): 20 generated seeds + the 110
@@ -874,12 +876,13 @@ NON_STEERING = ('sh_addr', 'sh_addralign', 'p_paddr', 'p_align', 'p_memsz', 'p_f
 
 
 def enum_truncations(tier):
-    """every truncation length of the small seeds (quick: shipped files of 1..4 KiB are sub-sampled)"""
+    """every truncation length of the small seeds (quick: every length of the 20 generated seeds; shipped files
+    <= 4 KiB at the first 128 lengths, header-table boundaries +-1 and stride 31)"""
     for src in small_seeds():
         seed = seed_bytes(src)
         n = len(seed)
         sc = seed_scan(src)
-        if tier == 'thorough' or src.startswith('gen:') or n <= 1024:
+        if tier == 'thorough' or src.startswith('gen:'):
             lengths = range(0, n + 1)
         else:
             keep = set(range(0, 129)) | set(range(0, n + 1, 31)) | {n - 2, n - 1, n}
@@ -912,7 +915,7 @@ def enum_big_truncations(tier):
 
 
 def enum_byte_subst(tier):
-    cap = 2048 if tier == 'quick' else 1 << 16
+    cap = 1024 if tier == 'quick' else 1 << 16
     srcs = gen_seed_names() + ['file:' + p for p, sz in shipped_elfs() if sz <= cap]
     for src in srcs:
         seed = seed_bytes(src)
@@ -923,15 +926,18 @@ def enum_byte_subst(tier):
 
 
 def enum_single_fields(tier):
-    """every field x every boundary value (quick: reduced value set for fields that steer nothing and for
-    shipped files; shipped files <= 1 KiB only)"""
-    for src in small_seeds(1024 if tier == 'quick' else SMALL):
+    """every field x every boundary value (quick: 18 generated seeds + shipped files <= 700 bytes; the full value
+    set in selected cells, a reduced 6-value set elsewhere, 3 values for fields that steer nothing)"""
+    for src in small_seeds(700 if tier == 'quick' else SMALL):
+        if tier == 'quick' and src in ('gen:full32be', 'gen:full64be'):
+            continue
         sc = seed_scan(src)
         if not sc.ok:
             continue
         seed = seed_bytes(src)
         gen = src.startswith('gen:')
-        rich = gen and src not in ('gen:full32be', 'gen:full64le')   # the 14-section seed: full value set in 2 cells
+        # quick: the full boundary set in two cells of the cheap seeds and one cell of the 14-section seed
+        rich = gen and (src == 'gen:full64le' or (not src.startswith('gen:full') and src[-4:] in ('32le', '64be')))
         for fld in sc.fields:
             steer = fld['label'].split('.')[-1] not in NON_STEERING
             orig = _field_value(sc, seed, fld)
@@ -950,7 +956,8 @@ def enum_single_fields(tier):
 def pair_seeds(tier):
     if tier == 'thorough':
         return gen_seed_names() + ['file:' + p for p, sz in shipped_elfs() if sz <= 1024]
-    return [s for s in gen_seed_names() if s[4:-4] in ('min', 'sec', 'xnum', 'seg')] + ['gen:full64le', 'gen:full32be']
+    return ['gen:min32le', 'gen:min64be', 'gen:sec32le', 'gen:sec64be', 'gen:xnum32be', 'gen:xnum64le', 'gen:seg64le',
+            'gen:seg32be', 'gen:full64le']
 
 
 def enum_field_pairs(tier):
@@ -1006,7 +1013,10 @@ def bulk(ctx, tier, shard, nshards):
             ctx.cur_buckets = set()
             run_case(ctx, case)
             ctx.count('bulk_cases')
-    run_atheris(ctx, tier, shard, nshards)
+    # quick: 4 of the shards run the fuzzer (its start-up costs ~2 s), thorough: all of them
+    fz = [k for k in range(nshards) if tier == 'thorough' or k % 4 == 0 or nshards < 4]
+    if shard in fz:
+        run_atheris(ctx, tier, fz.index(shard), len(fz))
 
 
 def _sharded(en, tier, shard, nshards):
@@ -1078,7 +1088,7 @@ def strategy(tier):
 # ---------------------------------------------------------------------------
 # optional atheris campaign on the constructor
 
-ATHERIS_RUNS = {'quick': 20000, 'thorough': 800000}    # total over all shards
+ATHERIS_RUNS = {'quick': 8000, 'thorough': 800000}    # total over the shards that run it
 
 _ATHERIS_TARGET = r'''
 import sys, os, io, hashlib, traceback
